@@ -427,6 +427,18 @@ func (c c03) Run(e *Env, cs *Case) (*Outcome, error) {
 	}
 	got := world.HashFile(out)
 	if got == canon.Sha {
+		// Same binary. The obfuscated sources handed to the compiler (what
+		// -debugdir shows) must be the same too: a difference there that the
+		// compiler happens to erase is still non-reproducible output.
+		if p.V.Cache != "cold" {
+			for _, k := range sortedKeys(canon.Inputs) {
+				if h, ok := inputs[k]; ok && h != canon.Inputs[k] {
+					o.Violation = &Violation{Class: "garbled-source-differs", Key: "garbled-source-differs/" + key + "/" + k,
+						Detail: fmt.Sprintf("%s under %s: variant %+v produces the same binary but a different obfuscated source for %s (hash %s vs %s in the canonical build)", p.Prog, p.Cfg, p.V, k, h, canon.Inputs[k])}
+					break
+				}
+			}
+		}
 		return o, nil
 	}
 	// Localise: first compile input that differs from the canonical run.
